@@ -21,17 +21,26 @@ pub fn merge_locked_tokens_through_factory<M: CallTypeApi>(
     )
 }
 
+/// Returns the merged farm token and the boosted rewards the farm paid out while merging
 pub fn merge_farm_tokens_through_farm<M: CallTypeApi>(
     original_caller: &ManagedAddress<M>,
     farm_address: ManagedAddress<M>,
     farm_tokens: PaymentsVec<M>,
-) -> EsdtTokenPayment<M> {
-    merge_common(
-        original_caller,
+) -> (EsdtTokenPayment<M>, EsdtTokenPayment<M>) {
+    let mut contract_call = ContractCallWithMultiEsdt::<
+        M,
+        MultiValue2<EsdtTokenPayment<M>, EsdtTokenPayment<M>>,
+    >::new(
         farm_address,
-        FARM_MERGE_TOKENS_ENDPOINT_NAME,
+        ManagedBuffer::new_from_bytes(FARM_MERGE_TOKENS_ENDPOINT_NAME),
         farm_tokens,
-    )
+    );
+    contract_call.proxy_arg(&original_caller);
+
+    let result: MultiValue2<EsdtTokenPayment<M>, EsdtTokenPayment<M>> =
+        contract_call.execute_on_dest_context();
+
+    result.into_tuple()
 }
 
 fn merge_common<M: CallTypeApi>(
